@@ -4,6 +4,9 @@
 #![allow(clippy::type_complexity)]
 
 pub mod checks;
+#[cfg(feature = "explore")]
+pub mod explore;
+pub mod explore_free;
 pub mod refmodel;
 pub mod report;
 pub mod streams;
@@ -45,10 +48,12 @@ pub fn run_check(id: &str, r: &mut Report, ctx: &Ctx) -> bool {
     match id {
         "C01" => checks::c01::run(r, ctx),
         "C02" => checks::c02::run(r, ctx),
+        "C03" => checks::c03::run(r, ctx),
         "C04" => checks::c04::run(r, ctx),
         "C05" => checks::c05::run(r, ctx),
         "C06" => checks::c06::run(r, ctx),
         "C10" => checks::c10::run(r, ctx),
+        "C11" => checks::c11::run(r, ctx),
         "C13" => checks::c13::run(r, ctx),
         "C14" => checks::c14::run(r, ctx),
         "C08" => checks::c08::run(r, ctx),
@@ -62,10 +67,12 @@ pub fn replay(id: &str, case: &serde_json::Value) -> Result<(), String> {
     match id {
         "C01" => checks::c01::replay(case),
         "C02" => checks::c02::replay(case),
+        "C03" => checks::c03::replay(case),
         "C04" => checks::c04::replay(case),
         "C05" => checks::c05::replay(case),
         "C06" => checks::c06::replay(case),
         "C10" => checks::c10::replay(case),
+        "C11" => checks::c11::replay(case),
         "C13" => checks::c13::replay(case),
         "C14" => checks::c14::replay(case),
         "C08" => checks::c08::replay(case),
